@@ -197,6 +197,8 @@ def fit_doc(rnd, doc, maps):
                     if isinstance(sub, dict) and t == "sub":
                         fit_doc(rnd, sub, [val[1]])
                 continue
+            if k == "version":
+                continue
             if t == "deleted" and k not in created and rnd.random() < 0.75:
                 doc.setdefault(k, gen_scalar(rnd))
             elif t == "key" and val[1].split(".")[0] not in created and rnd.random() < 0.75:
